@@ -154,7 +154,12 @@ class BuiltinBroachingCodeGenerator(BroachingCodeGenerator):
                 args.append(sub_ast)
             elif isinstance(arg, KeywordArg):
                 sub_ast = self._gen_plan_element_dispatch(state, arg.element)
-                keywords.append(ast.keyword(arg=arg.key, value=sub_ast))  # type: ignore[call-overload]
+                if keyword.iskeyword(arg.key):
+                    # e.g. a key of TypedDict("T", {"class": int}) can not be written as a keyword argument
+                    sub_ast = ast.Dict(keys=[ast.Constant(arg.key)], values=[sub_ast])  # type: ignore[list-item]
+                    keywords.append(ast.keyword(value=sub_ast))  # type: ignore[call-overload]
+                else:
+                    keywords.append(ast.keyword(arg=arg.key, value=sub_ast))  # type: ignore[call-overload]
             elif isinstance(arg, UnpackMapping):
                 sub_ast = self._gen_plan_element_dispatch(state, arg.element)
                 keywords.append(ast.keyword(value=sub_ast))  # type: ignore[call-overload]
